@@ -62,6 +62,10 @@ pub struct Scenario {
     /// the ring exactly as through the synchronous API
     #[serde(default)]
     pub sync_always: bool,
+    /// O_DIRECT files get a second, buffered descriptor; entries with an odd user_data go through it. The page
+    /// cache may then be on: O_DIRECT transfers neither use nor fill it, buffered ones do
+    #[serde(default)]
+    pub shadow_buffered: bool,
     pub ring_entries: Vec<u32>,
     /// initial length of each file
     pub files: Vec<u32>,
@@ -111,7 +115,12 @@ impl Scenario {
         if rng.chance(1, 6) {
             self.direct_align = *rng.pick(&[4u64, 8, 16]);
             self.direct_files = rng.range(1, 7) as u8;
-            self.page_cache = false;
+            self.shadow_buffered = rng.chance(1, 2);
+            if !self.shadow_buffered {
+                self.page_cache = false;
+            } else {
+                self.page_cache = rng.chance(2, 3);
+            }
             // bias offsets and lengths towards multiples of the alignment
             let a = self.direct_align;
             for op in self.ops.iter_mut() {
@@ -295,6 +304,7 @@ impl Property for C18 {
             lat_max_ns,
             page_cache: rng.chance(1, 3),
             sync_always: rng.chance(1, 5),
+            shadow_buffered: false,
             ring_entries: (0..nr).map(|_| rng.range(1, 8) as u32).collect(),
             files: (0..nf).map(|_| rng.range(0, 40) as u32).collect(),
             ops,
@@ -411,6 +421,9 @@ fn run_inner(sc: &Scenario, log: &mut Log, rep: &mut Report) -> Option<Violation
         cfg.direct_io_alignment(sc.direct_align);
     }
     let is_direct = |f: usize| sc.direct_align > 0 && sc.direct_files >> f & 1 == 1;
+    // which descriptor an entry uses: the O_DIRECT one, or (odd user_data) the buffered shadow of the same file
+    let via_shadow = |f: usize, ud: u64| sc.shadow_buffered && is_direct(f) && ud % 2 == 1;
+    let mut shadows: Vec<Option<sfs::File>> = Vec::new();
     let mut w = World {
         fs: Arc::new(Mutex::new(Fs::new(cfg, sc.fs_seed))),
         iou: Arc::new(Mutex::new(IoUringHostState::new())),
@@ -447,6 +460,10 @@ fn run_inner(sc: &Scenario, log: &mut Log, rep: &mut Report) -> Option<Violation
         model.write_at(i as u8, 0, &data);
         model.sync_file(i as u8);
         handles.push(Some(f));
+        shadows.push(if sc.shadow_buffered && is_direct(i) { Some(w.entered(|| sfs::OpenOptions::new().read(true).write(true).open(FILES[i]).expect("open shadow"))) } else { None });
+    }
+    if sc.shadow_buffered {
+        rep.probes.inc("o_direct_and_buffered_descriptor_on_one_file");
     }
     w.entered(|| sfs::sync_dir("/").expect("sync_dir"));
     model.sync_dir("/");
@@ -491,9 +508,10 @@ fn run_inner(sc: &Scenario, log: &mut Log, rep: &mut Report) -> Option<Violation
                     SqeKind::Cancel { .. } => (0, 0),
                 };
                 // the fd is captured at push time; a closed file keeps its (now stale) fd number
-                let fd = match &handles[file] {
-                    Some(f) => f.as_raw_fd(),
-                    None => -1,
+                let fd = match (&handles[file], &shadows[file]) {
+                    (Some(_), Some(sh)) if via_shadow(file, *ud) => sh.as_raw_fd(),
+                    (Some(f), _) => f.as_raw_fd(),
+                    (None, _) => -1,
                 };
                 let buf_idx = bufs.len();
                 let buf = match kind {
@@ -589,10 +607,11 @@ fn run_inner(sc: &Scenario, log: &mut Log, rep: &mut Report) -> Option<Violation
                                 SqeKind::Cancel { .. } => 0,
                             };
                             let open_now = handles[file_of].is_some();
+                            let direct_op = is_direct(file_of) && !via_shadow(file_of, ud);
                             // a read that hits the page cache costs ~100ns whatever io latency is configured;
                             // a cold read pays the full latency
-                            let hit = sc.page_cache && matches!(k, SqeKind::Read { .. }) && open_now && cached[file_of];
-                            if sc.page_cache && open_now && matches!(k, SqeKind::Read { .. } | SqeKind::Write { .. }) {
+                            let hit = sc.page_cache && matches!(k, SqeKind::Read { .. }) && open_now && cached[file_of] && !direct_op;
+                            if sc.page_cache && open_now && !direct_op && matches!(k, SqeKind::Read { .. } | SqeKind::Write { .. }) {
                                 if matches!(k, SqeKind::Read { .. }) && !cached[file_of] {
                                     rep.probes.inc("cold_read_with_page_cache");
                                 }
@@ -602,7 +621,7 @@ fn run_inner(sc: &Scenario, log: &mut Log, rep: &mut Report) -> Option<Violation
                             let e = now_ns + lo;
                             let l = now_ns + hi;
                             let misaligned = match k {
-                                SqeKind::Read { off, len, .. } | SqeKind::Write { off, len, .. } => open_now && is_direct(file_of) && (*off % sc.direct_align != 0 || *len as u64 % sc.direct_align != 0),
+                                SqeKind::Read { off, len, .. } | SqeKind::Write { off, len, .. } => open_now && direct_op && (*off % sc.direct_align != 0 || *len as u64 % sc.direct_align != 0),
                                 _ => false,
                             };
                             if misaligned {
@@ -610,7 +629,7 @@ fn run_inner(sc: &Scenario, log: &mut Log, rep: &mut Report) -> Option<Violation
                                 if matches!(k, SqeKind::Read { .. }) {
                                     frozen_bufs.push((buf, ud));
                                 }
-                            } else if open_now && is_direct(file_of) && matches!(k, SqeKind::Read { .. } | SqeKind::Write { .. }) {
+                            } else if open_now && direct_op && matches!(k, SqeKind::Read { .. } | SqeKind::Write { .. }) {
                                 rep.probes.inc("aligned_transfer_on_o_direct_file");
                             }
                             rm.out.push(Outstanding { ud, kind, bad_flags: false, earliest: e, latest: l, buf, fixed: None, misaligned });
@@ -750,7 +769,10 @@ fn run_inner(sc: &Scenario, log: &mut Log, rep: &mut Report) -> Option<Violation
             Op::CloseFile { file } => {
                 let f = *file % nf;
                 if handles[f].is_some() {
-                    w.entered(|| handles[f] = None);
+                    w.entered(|| {
+                        handles[f] = None;
+                        shadows[f] = None;
+                    });
                     model.close(f as u8);
                     log.ev(format!("#{i} close file {f}"));
                 }
@@ -791,6 +813,9 @@ fn run_inner(sc: &Scenario, log: &mut Log, rep: &mut Report) -> Option<Violation
                 let inflight: usize = rms.iter().map(|r| r.out.len()).sum();
                 w.entered(|| {
                     for h in handles.iter_mut() {
+                        *h = None;
+                    }
+                    for h in shadows.iter_mut() {
                         *h = None;
                     }
                 });
@@ -862,6 +887,7 @@ fn run_inner(sc: &Scenario, log: &mut Log, rep: &mut Report) -> Option<Violation
                             o.open(FILES[fi]).expect("reopen")
                         });
                         handles[fi] = Some(f);
+                        shadows[fi] = if sc.shadow_buffered && is_direct(fi) { Some(w.entered(|| sfs::OpenOptions::new().read(true).write(true).open(FILES[fi]).expect("reopen shadow"))) } else { None };
                         model.open(fi as u8, FILES[fi], &OpenFlags { read: true, write: true, ..Default::default() });
                     }
                 }
